@@ -47,8 +47,14 @@ def gen_expr(kind, sd):
         variant = rng.choice(["mp", "re"])
         h = Operators(variant)
         gs = GroundState(h, first_order_singles=rng.random() < 0.3)
-        which = rng.choice(["energy", "amp", "psi", "precursor", "matrix", "expec", "symdenom", "real"])
-        if which == "energy":
+        which = rng.choice(["energy", "amp", "psi", "precursor", "matrix", "expec", "symdenom", "real",
+                            "operator"])
+        if which == "operator":
+            # operator matrices with unequal numbers of creators / annihilators: tensors with
+            # only upper or only lower indices
+            nc, na = rng.choice([(0, 1), (1, 0), (2, 0), (0, 2), (1, 2), (2, 1), (1, 1), (2, 2), (0, 3)])
+            e = h.operator(nc, na)[0]
+        elif which == "energy":
             e = gs.energy(rng.choice([1, 2]))
         elif which == "amp":
             e = gs.amplitude(rng.choice([1, 2]), *rng.choice([("ph", "ia"), ("pphh", "ijab")]))
@@ -103,6 +109,14 @@ def gen_expr(kind, sd):
             t = t / den ** rng.choice([1, 1, 2])
             if rng.random() < 0.3:
                 t = t * (e_(i) + e_(j))
+        if kind in ("plain", "spin") and rng.random() < 0.2:
+            # a tensor with only upper or only lower indices
+            from adcgen.sympy_objects import AntiSymmetricTensor
+            sp_ = rng.choice(["a", "b"]) if kind == "spin" else ""
+            nm = rng.sample("ijk" if rng.random() < 0.5 else "abc", rng.choice([1, 2]))
+            one = get_symbols(nm, sp_ * len(nm)) if sp_ else get_symbols(nm)
+            t = t * (AntiSymmetricTensor("d", (), tuple(one)) if rng.random() < 0.5
+                     else AntiSymmetricTensor("d", tuple(one), ()))
         if kind == "ops":
             k = rng.choice([1, 2])
             o = get_symbols(rng.sample("ijk", k))
